@@ -100,10 +100,10 @@ def idatChunks (crc : Bytes → Nat) (s : Bytes) : Nat → Nat → Bytes → Lis
         let chunkLen := ofBe32 ((s.drop pos).take 4)
         let ty := (s.drop (pos + 4)).take 4
         if ty ≠ idatTag ∨ pos + chunkLen + 12 > s.length then .ok (payload, sizes, pos)
-        else if chunkLen = 0 then .error .err
+        else if chunkLen = 0 then .ok (payload, sizes, pos)
         else
           let chunk := (s.drop (pos + 8)).take chunkLen
-          if crc (ty ++ chunk) ≠ ofBe32 ((s.drop (pos + chunkLen + 8)).take 4) then .error .err
+          if crc (ty ++ chunk) ≠ ofBe32 ((s.drop (pos + chunkLen + 8)).take 4) then .ok (payload, sizes, pos)
           else idatChunks crc s fuel (pos + chunkLen + 12) (payload ++ chunk) (sizes ++ [chunkLen])
       else .ok (payload, sizes, pos)
 
